@@ -248,6 +248,9 @@ def load_hdf5(path, meta_only=False):
             dataset_dict = {}
             for dkey in h5["data"]:
                 dset = h5["data"][dkey]
+                if "path" not in dset.attrs:
+                    # remains of an interrupted save
+                    continue
                 dbin = dset[...]
                 name = dkey + "_" + pathlib.Path(dset.attrs["path"]).name
                 dpath = pathlib.Path(tdir) / name
